@@ -452,6 +452,14 @@ func resizeImage(img image.Image, w int, h int, cellPixW int, cellPixH int) imag
 		newPixelWidth = int(sfY * float64(wPix))
 		newPixelHeight = int(sfY * float64(hPix))
 	}
+	// A long and thin image keeps at least one pixel of its short side: an
+	// image without pixels can't be encoded
+	if newPixelWidth < 1 {
+		newPixelWidth = 1
+	}
+	if newPixelHeight < 1 {
+		newPixelHeight = 1
+	}
 	dst := image.NewRGBA(image.Rect(0, 0, newPixelWidth, newPixelHeight))
 	draw.NearestNeighbor.Scale(dst, dst.Rect, img, img.Bounds(), draw.Over, nil)
 	return dst
